@@ -60,11 +60,11 @@ def run(ctx):
                               signature=dict(oracle="tie", cfg=cfg))
         # program exit: every stack is destroyed (the library's own leak checker must stay silent)
         for sc in SCENARIOS:
-            r = subprocess.run([exe, "exit", sc], capture_output=True, text=True, timeout=60)
+            xrc, xout, xerr = common.run_harness(exe, ["exit", sc], timeout=60)
             ctx.coverage["evaluations"] += 1
-            if "leaked" in r.stderr or r.returncode != 0:
+            if "leaked" in xerr or xrc != 0:
                 ctx.violation("C14-exit-%s-%s" % (cfg, sc),
-                              "temporary stacks [%s] scenario %s: at program exit rc=%d, leak report: %s" % (cfg, sc, r.returncode, r.stderr.strip()[-300:]),
+                              "temporary stacks [%s] scenario %s: at program exit rc=%d, leak report: %s" % (cfg, sc, xrc, xerr.strip()[-300:]),
                               dict(subject="temp-exit", cfg=cfg, scenario=sc, replay_cmd="%s exit %s" % (exe, sc)),
                               signature=dict(oracle="exit-leak", cfg=cfg, scenario=sc))
     ctx.coverage["rule"] = ("mode 2 (rwdi, dbg): 2-4 real threads with seeded scripts of get_temporary_stack / initializer construction / initializer "
